@@ -60,7 +60,9 @@ class InstanceManager:
         instances = []
 
         for key in keys:
-            instances.append(self._get_instance_state(key))
+            # an instance that has not begun a session has no state to externalise
+            if self._instances[key]['instance'].session_state is not None:
+                instances.append(self._get_instance_state(key))
             
         return instances
         
